@@ -2,6 +2,8 @@
 from .seed import Streams
 from .canon import enc
 from . import gen_common as G
+from .canon import dec as C_dec
+import copy
 
 OP_GROUPS = ["net", "xform", "ssm", "cir", "td", "tran", "imp", "sig", "ld", "file"]
 
@@ -44,7 +46,20 @@ def plan(seed, overrides=None):
         ids = G.network_ids(recipes[name])
         recipes[name + "_keep"] = {"kind": "keep", "net": name, "ids": rr.sample(ids, rr.randint(0, min(3, len(ids)))),
                                    "share": rr.random() < 0.8}
+        # the same names with other values (a parameter sweep reuses ids): defeats memoisation on partial keys
+        for suffix in ("_cv", "_lv"):
+            v = dict(recipes[name + suffix]["v"])
+            recipes[name + suffix + "2"] = {"kind": "value", "v": enc({k: x * rr.choice([2, 4.7, 0.1]) for k, x in v.items()})}
         nets.append(name)
+        if rr.random() < 0.5:
+            sib = _sibling_network(rr, recipes[name])
+            if sib is not None:
+                sname = name + "s"
+                recipes[sname] = sib
+                for suffix in ("_cv", "_lv", "_cv2", "_lv2"):
+                    recipes[sname + suffix] = recipes[name + suffix]
+                recipes[sname + "_keep"] = dict(recipes[name + "_keep"], net=sname)
+                nets.append(sname)
     for i in range(cfg["n_cirs"]):
         name = f"cir{i}"
         if rr.random() < 0.5:
@@ -52,12 +67,20 @@ def plan(seed, overrides=None):
         else:
             recipes[name] = G.gen_circuit(rr, degenerate=rr.random() < cfg["degenerate_rate"])
         cirs.append(name)
+        if rr.random() < 0.5:
+            sib = _sibling_circuit(rr, recipes[name])
+            if sib is not None:
+                recipes[name + "s"] = sib
+                cirs.append(name + "s")
     recipes["wlist"] = {"kind": "value", "v": enc(sorted(rr.sample([0, 1.0, 10.0, 100.0, 314.0, 2.5, 20.0], rr.randint(1, 4))))}
     recipes["warr"] = {"kind": "ndarray", "v": enc(sorted(rr.sample([0, 1.0, 10.0, 100.0, 314.0, 2.5], rr.randint(1, 3))))}
     n_t = rr.choice([5, 8, 20, 40])
     t_end = rr.choice([1e-3, 0.05, 1.0, 10.0])
     recipes["tgrid"] = {"kind": "ndarray", "v": enc([t_end * k / (n_t - 1) for k in range(n_t)])}
     recipes["tgrid0"] = {"kind": "ndarray", "v": enc([])}
+    t_off = rr.choice([0.05, 1e-3, 2.0])
+    recipes["tgrid1"] = {"kind": "ndarray", "v": enc([t_off + t_end * k / (n_t - 1) for k in range(n_t)])}   # does not start at 0
+    recipes["wlist2"] = {"kind": "value", "v": enc([x * 2 + 1 for x in C_dec(recipes["wlist"]["v"])])}
     for c in cirs:
         ids = G.circuit_ids(recipes[c])
         recipes[c + "_inputs"] = {"kind": "inputs", "map": {i: rr.choice([{"fn": "const", "c": 1.0}, {"fn": "step", "t0": t_end / 3, "x1": 2.0},
@@ -71,8 +94,8 @@ def plan(seed, overrides=None):
                                    "phase": rr.choice(G.PHI_VALUES), "offset": rr.choice([0, 1.5])})}
     recipes["desc0"] = G.gen_net_description(rr, degenerate=rr.random() < cfg["degenerate_rate"])
     recipes["cdesc0"] = G.gen_cir_description(rr, degenerate=rr.random() < cfg["degenerate_rate"])
-    recipes["doc0"] = {"kind": "value", "v": enc(G.gen_document(rr, python_form=True))}
-    recipes["ndoc0"] = {"kind": "value", "v": enc(G.gen_document(rr, python_form=False))}
+    recipes["doc0"] = G.gen_document_recipe(rr, python_form=True)
+    recipes["ndoc0"] = G.gen_document_recipe(rr, python_form=False)
     recipes["entry0"] = {"kind": "value", "v": enc(G.gen_cir_entry(rr, "E1", ["0", "1", "a"]))}
     z = G.cx(rr)
     recipes["z0"] = {"kind": "value", "v": enc(G.notation(rr, z))}
@@ -88,6 +111,43 @@ def plan(seed, overrides=None):
     steps = _interleave(S("sched"), scripts, cfg)
     _place_faults(S("faults"), steps, cfg)
     return {"property": "C20", "seed": seed, "config": cfg, "recipes": recipes, "steps": steps}
+
+
+def _sibling_network(r, rec):
+    """near-duplicate: same ids and topology, exactly one thing changed"""
+    sib = copy.deepcopy(rec)
+    if not sib["branches"]:
+        return None
+    b = r.choice(sib["branches"])
+    how = r.choice(["value", "value", "swap_nodes", "order"])
+    if how == "value":
+        args = b["el"].get("args", {})
+        keys = [k for k, v in args.items() if isinstance(v, (int, float)) and not isinstance(v, bool)]
+        if not keys:
+            how = "swap_nodes"
+        else:
+            k = r.choice(keys)
+            args[k] = args[k] * r.choice([2, 0.5, 3]) if args[k] else 1.0
+    if how == "swap_nodes":
+        b["n1"], b["n2"] = b["n2"], b["n1"]
+    elif how == "order":
+        sib["branches"].reverse()
+    return sib
+
+
+def _sibling_circuit(r, rec):
+    sib = copy.deepcopy(rec)
+    cands = [c for c in sib["components"] if c.get("args")]
+    if not cands:
+        return None
+    c = r.choice(cands)
+    keys = [k for k, v in c["args"].items() if isinstance(v, (int, float)) and not isinstance(v, bool)]
+    if not keys:
+        c["nodes"] = list(reversed(c["nodes"]))
+        return sib
+    k = r.choice(keys)
+    c["args"][k] = c["args"][k] * r.choice([2, 4.7, 0.5]) if c["args"][k] else 1.0
+    return sib
 
 
 # --------------------------------------------------------------------------- scripts
@@ -173,10 +233,11 @@ def _script(r, client, world, counter):
         elif g == "ssm":
             a = {"net": P(net)}
             mode = r.choice(["shared", "shared", "default", "cv_only"])
+            two = "2" if r.random() < 0.35 else ""
             if mode in ("shared", "cv_only"):
-                a["cv"] = P(net + "_cv")
+                a["cv"] = P(net + "_cv" + two)
             if mode == "shared":
-                a["lv"] = P(net + "_lv")
+                a["lv"] = P(net + "_lv" + two)
             h = add("net.ssm", a)
             add("ssm.all", {"ssm": h})
             if r.random() < 0.5:
@@ -192,7 +253,7 @@ def _script(r, client, world, counter):
                     if r.random() < 0.3:
                         a["w_res"] = r.choice([1e-3, 1.0])
                 elif r.random() < 0.5:
-                    a["w"] = P("wlist")
+                    a["w"] = P(r.choice(["wlist", "wlist", "wlist2"]))
                 h = add("cir.transform", a)
                 if f == "transform" and "w" in a and r.random() < 0.7:
                     add("cir.transform", {"cir": P(cir), "f": "transform"})
@@ -228,11 +289,11 @@ def _script(r, client, world, counter):
             # split-phase: something else of this client happens between obtaining and evaluating
             if r.random() < 0.5:
                 add("cir.freqs", {"cir": P(cir), "w_max": 50.0})
-            add("fn.eval", {"fn": fn, "t": P(r.choice(["tgrid", "tgrid", "tgrid0"]))})
+            add("fn.eval", {"fn": fn, "t": P(r.choice(["tgrid", "tgrid", "tgrid0", "tgrid1"]))})
             if r.random() < 0.3:
                 add("fn.eval", {"fn": fn, "t": {"lit": 0.25}})
         elif g == "tran":
-            a = {"cir": P(cir), "tin": P("tgrid"), "inputs": P(cir + "_inputs")}
+            a = {"cir": P(cir), "tin": P(r.choice(["tgrid", "tgrid", "tgrid1"])), "inputs": P(cir + "_inputs")}
             if r.random() < 0.3:
                 a["seam_on"] = "solver"
             h = add("cir.tran", a)
@@ -384,7 +445,7 @@ def _place_faults(r, steps, cfg):
         s = r.choice(free)
         # k is log-distributed: early lines (argument handling) and deep lines both get hit
         k = int(round(2 ** r.uniform(0, 9)))
-        s["fault"] = {"kind": "interrupt", "k": k}
+        s["fault"] = {"kind": "interrupt", "k": k, "exc": r.choice(["interrupt", "interrupt", "interrupt", "memory", "key", "type", "os", "linalg"])}
 
 
 def gen_io_fault(r, writing):
